@@ -133,14 +133,14 @@ Proof.
   { rewrite Hs, app_length. cbn. lia. }
   specialize (Hu Hl).
   eexists. split.
-  - unfold handle_catch. destruct e; try discriminate Hc; rewrite Hrun; cbn [negb]; rewrite Hk, Hu; reflexivity.
+  - unfold handle_catch, handle_catch_gen. destruct e; try discriminate Hc; cbn [andb]; rewrite Hrun; cbn [negb]; rewrite Hk, Hu; reflexivity.
   - cbn. rewrite Hs at 1. rewrite (after_frames_stack above below c Hnt). repeat split; auto. apply find_live_spent.
 Qed.
 
 Theorem uncaught_returns : forall c e,
   catchable e = true -> find_live (c_trys c) = None -> handle_catch c (Some e) = (c, Some e).
 Proof.
-  intros c e Hc Hn. unfold handle_catch. destruct e; try discriminate Hc;
+  intros c e Hc Hn. unfold handle_catch, handle_catch_gen. destruct e; try discriminate Hc; cbn [andb];
   destruct (negb (c_running c)); auto; rewrite Hn; reflexivity.
 Qed.
 
